@@ -44,6 +44,7 @@ def make_cfg(rng: random.Random, profile: str = "c12") -> dict:
         "fault_kinds": rng.sample(["async_interrupt", "async_memerr", "fp_trap", "cache_evict"], rng.randint(1, 4)),
         "p_ws_aim": 0.5,
         "p_layout": rng.choice([0.0, 0.0, 0.3]),   # Fortran-ordered / transposed-view coordinate arrays
+        "p_mag": rng.choice([0.0, 0.0, 0.0, 0.2]),   # coordinates of magnitude 1e5..1e7 or 1e-4..1e-2
     }
     warm = []
     if not cfg["cold_start"]:
@@ -116,6 +117,11 @@ class PoolGen:
                 v[0] = 1
             return self.noisy(v)
         v = self.ivec(dim) + [1]
+        if rng.random() < self.cfg.get("p_mag", 0.0):
+            # survey / pixel / micro-scale coordinates: the library's tolerances are absolute (1e-8), its code paths
+            # (normalisation, isclose, is_multiple) are not scale free
+            f_ = rng.choice([1e5, 3e6, 1e-4, 2.5e-3])
+            return [x * f_ for x in v[:-1]] + [1]
         if allow_inf and rng.random() < 0.12:
             v[-1] = 0
             if not any(v):
@@ -269,6 +275,39 @@ class PoolGen:
             pb = self.add("point", [b_ + [1]], {"how": "hom", "dt": "f"}, tag="aux")
             self.add("line_pq", [pa, pb], tag=f"line{d}")
         self.add("linecoll_pq", [pc1, pc2], tag=f"linecoll{d}")
+        if rng.random() < 0.35 and len(self.pts[d]) >= 2:
+            # partial incidence: a line through two pool points and a collection of which SOME points lie on it (in
+            # 3D also a plane with some points in it). Code that treats incident and non-incident elements
+            # differently (masks, fixed points, except-branches) only runs on such mixed collections.
+            (sp, vp), (sq, vq) = rng.sample(self.pts[d], 2)
+            if vp != vq:
+                self.add("line_pq", [sp, sq], tag=f"line{d}")
+                rows = []
+                for _ in range(rng.choice([2, 3, 4, 5])):
+                    if rng.random() < 0.5:
+                        k_ = rng.choice([2, 3, -1, 0.5, -2])
+                        if vp[-1] == 1 and vq[-1] == 1:
+                            rows.append([vp[i] + k_ * (vq[i] - vp[i]) for i in range(d)] + [1])
+                        else:
+                            rows.append([vp[i] + k_ * vq[i] for i in range(d + 1)])
+                    else:
+                        rows.append(self.ivec(d) + [1])
+                    if not any(rows[-1]):
+                        rows[-1][0] = 1
+                frac = any(isinstance(x, float) and x != int(x) for r_ in rows for x in r_)
+                ln_ = len(self.recipes) - 1
+                pc_ = self.add("pointcoll", [rows], {"dt": "f" if frac or rng.random() < 0.6 else "i"},
+                               tag=f"pointcoll{d}")
+                # random binding would pair exactly this line with exactly this collection once in a blue moon
+                related = [("sub_contains", [ln_, pc_]), ("mirror", [ln_, pc_]), ("project", [ln_, pc_]),
+                           ("line_perpendicular", [ln_, pc_]), ("dist", [ln_, pc_]), ("dist", [pc_, ln_])]
+                if d == 3 and len(self.pts[3]) >= 3:
+                    sr, vr = rng.choice([x for x in self.pts[3] if x[0] not in (sp, sq)])
+                    pl_ = self.add("plane_pqr", [sp, sq, sr], tag="plane")
+                    related += [("sub_contains", [pl_, pc_]), ("mirror", [pl_, pc_]), ("project", [pl_, pc_]),
+                                ("join_lp", [ln_, pc_])]
+                for op_, args_ in rng.sample(related, 2):
+                    self.script.append({"op": op_, "args": args_})
         if d == 2:
             self.add("linecoll", [[self.ivec(3) for _ in range(rng.choice([1, 2, 3]))]], {"dt": self.dt()},
                      tag="linecoll2")
